@@ -57,7 +57,8 @@ func verifC31DcReadAll(r io.Reader) ([]byte, error) {
 		limit, r = lr.N, lr.R
 	}
 	if _, ok := r.(*zstd.Decoder); !ok {
-		panic("verifC31DcReadAll: unexpected reader")
+		verifUnmodelled("io.ReadAll over a reader the model does not know")
+		return nil, nil
 	}
 	n := verifC31DcTotal()
 	if limit >= 0 && limit < n {
